@@ -635,6 +635,129 @@ class Tr:
         return K(env2)
 
 
+
+# --------------------------------------------------------------------------- control skeleton of fit (C12)
+EVENT_KINDS = {"on_train_start": ("KTrainStart", 0), "on_epoch_start": ("KEpochStart", 1), "on_batch_start": ("KBatchStart", 2),
+               "on_batch_end": ("KBatchEnd", 2), "on_epoch_end": ("KEpochEnd", 1), "on_train_end": ("KTrainEnd", 0)}
+SETUP_PATTERNS = ["callbacks = CallbackList($a)", "optimizer = optimizer($a, lr=lr, **optimizer_args)", "optimizer.zero_grad()",
+                  "optimizer_args = $a", "scheduler_args = $a"]
+
+
+def _is_stop_test(t):
+    return isinstance(t, ast.Attribute) and t.attr == "stop_training" and isinstance(t.value, ast.Name) and t.value.id == "self"
+
+
+def _sensitive(node):
+    for n in ast.walk(node):
+        if isinstance(n, (ast.Break, ast.Continue, ast.Return, ast.Raise, ast.While, ast.Try)):
+            return True
+        if isinstance(n, ast.Name) and n.id == "callbacks":
+            return True
+        if isinstance(n, ast.Attribute) and n.attr in ("stop_training", "_stop_training"):
+            return True
+        if isinstance(n, ast.Call) and isinstance(n.func, ast.Attribute) and n.func.attr == "step":
+            return True
+    return False
+
+
+def extract_fit_skeleton(fn):
+    """the five item lists of Skeleton.skel, as Coq text; fail-closed"""
+    def items_of(stmts, ep, b, where):
+        out, loops = [], []
+        for st in stmts:
+            if isinstance(st, ast.Expr) and isinstance(st.value, ast.Constant):
+                continue
+            # callback dispatch
+            if isinstance(st, ast.Expr) and isinstance(st.value, ast.Call) and isinstance(st.value.func, ast.Attribute) \
+                    and isinstance(st.value.func.value, ast.Name) and st.value.func.value.id == "callbacks" \
+                    and st.value.func.attr in EVENT_KINDS:
+                kind, nargs = EVENT_KINDS[st.value.func.attr]
+                args = [ast.unparse(a) for a in st.value.args]
+                want = ["self"] + ([ep] if nargs >= 1 else []) + ([b] if nargs >= 2 else [])
+                if st.value.keywords or args != want or None in want:
+                    raise Untranslatable("dispatch %s with arguments %s (expected %s) %s" % (st.value.func.attr, args, want, where))
+                out.append("IEmit " + kind)
+                continue
+            if isinstance(st, ast.Expr) and ast.unparse(st.value) == "optimizer.step()":
+                out.append("IOpt")
+                continue
+            if isinstance(st, ast.If) and not st.orelse and ast.unparse(st.test) == "scheduler is not None" \
+                    and len(st.body) == 1 and isinstance(st.body[0], ast.Expr) and ast.unparse(st.body[0].value) == "scheduler.step()":
+                out.append("ISched")
+                continue
+            if isinstance(st, ast.If) and not st.orelse and _is_stop_test(st.test) and len(st.body) == 1:
+                if isinstance(st.body[0], ast.Break):
+                    out.append("IBreakIfStop")
+                    continue
+                if isinstance(st.body[0], ast.Return) and st.body[0].value is None:
+                    out.append("IReturnIfStop")
+                    continue
+            if isinstance(st, ast.For) and _sensitive(st):
+                loops.append((len(out), st))
+                out.append(st)
+                continue
+            if not _sensitive(st):
+                continue
+            if (isinstance(st, ast.If) and not st.orelse and len(st.body) == 1 and isinstance(st.body[0], ast.Raise)
+                    and not _sensitive(st.test) and ep is None and all(x == "IReturnIfStop" for x in out)):
+                continue                      # argument validation before anything observable happens
+            # set-up statements that mention the sensitive names but emit nothing
+            ok = False
+            for pat in SETUP_PATTERNS:
+                target = st.value if isinstance(st, ast.Expr) else st
+                pp = ast.parse(pat.replace("$", "H_")).body[0]
+                pp = pp.value if isinstance(pp, ast.Expr) and isinstance(st, ast.Expr) else pp
+                if _match(pp, target, {}):
+                    ok = True
+            src = ast.unparse(st)
+            if src.replace("\n", " ").replace("  ", " ") in ("if time: callbacks.append(Timer())", "if time:     callbacks.append(Timer())"):
+                ok = True
+            if isinstance(st, ast.If) and ast.unparse(st.test) == "time" and not st.orelse and len(st.body) == 1 \
+                    and ast.unparse(st.body[0]) == "callbacks.append(Timer())":
+                ok = True
+            if isinstance(st, ast.If) and ast.unparse(st.test) == "scheduler is not None" and not st.orelse and len(st.body) == 1 \
+                    and ast.unparse(st.body[0]).startswith("scheduler = scheduler(optimizer"):
+                ok = True
+            if not ok:
+                raise Untranslatable("statement of fit that touches callbacks / the stop flag / step() / control flow and is not in the skeleton table: %s" % src[:90])
+        return out
+
+    top = items_of(list(fn.body), None, None, "outside the epoch loop")
+    loops = [x for x in top if isinstance(x, ast.For)]
+    if len(loops) != 1:
+        raise Untranslatable("%d protocol-relevant loops at the top level of fit" % len(loops))
+    eloop = loops[0]
+    if eloop.orelse or not isinstance(eloop.target, ast.Name):
+        raise Untranslatable("epoch loop with else / non-name target")
+    i = top.index(eloop)
+    pre, post = top[:i], top[i + 1:]
+    ep = eloop.target.id
+    inner = items_of(list(eloop.body), ep, None, "in the epoch loop")
+    bl = [x for x in inner if isinstance(x, ast.For)]
+    if len(bl) != 1:
+        raise Untranslatable("%d protocol-relevant loops inside the epoch loop" % len(bl))
+    bloop = bl[0]
+    if bloop.orelse:
+        raise Untranslatable("batch loop with else")
+    it = bloop.iter
+    if isinstance(bloop.target, ast.Tuple) and len(bloop.target.elts) == 2 and isinstance(bloop.target.elts[0], ast.Name) \
+            and isinstance(it, ast.Call) and ast.unparse(it.func) == "enumerate" and len(it.args) == 1 and not it.keywords:
+        bvar = bloop.target.elts[0].id
+    elif isinstance(bloop.target, ast.Name) and isinstance(it, ast.Call) and ast.unparse(it.func) == "range" and len(it.args) == 1:
+        bvar = bloop.target.id
+    else:
+        raise Untranslatable("batch loop is not `for b, batch in enumerate(...)` / `for b in range(n)`")
+    j = inner.index(bloop)
+    epre, epost = inner[:j], inner[j + 1:]
+    body = items_of(list(bloop.body), ep, bvar, "in the batch loop")
+    for grp in (pre, post, epre, epost, body):
+        if any(isinstance(x, ast.For) for x in grp):
+            raise Untranslatable("protocol-relevant loop nested too deep")
+    if any(x == "IBreakIfStop" for x in pre + post):
+        raise Untranslatable("break outside a loop")
+    fmt = lambda l: "[" + "; ".join(l) + "]"
+    return "mkSkel %s\n         %s\n         %s\n         %s\n         %s" % (fmt(pre), fmt(epre), fmt(body), fmt(epost), fmt(post))
+
 # --------------------------------------------------------------------------- locating source functions
 def find_function(tree, qual):
     parts = qual.split(".")
@@ -692,6 +815,8 @@ def translate_kernel(repo, spec):
     fn = find_function(tree, spec["func"])
     if fn is None:
         raise Untranslatable("function %s not found in %s" % (spec["func"], spec["file"]))
+    if spec.get("kind") == "fit-skeleton":
+        return "Definition gen_%s : skel :=\n  %s." % (spec["name"], extract_fit_skeleton(fn)), "skel"
     tr = Tr(spec, class_functions(tree, spec["func"]))
     env = {}
     for py, coq, ty in spec["inputs"]:
@@ -759,7 +884,7 @@ def emit(repo, pid, out_path):
     imports = set()
     chunks = []
     for spec in KERNELS.get(pid, []):
-        rec = {"kernel": spec["name"], "source": "%s::%s" % (spec["file"], spec["func"]) + (" (local %s)" % spec["target"] if spec.get("kind") == "local" else ""),
+        rec = {"kernel": spec["name"], "kind": spec.get("kind", "function"), "source": "%s::%s" % (spec["file"], spec["func"]) + (" (local %s)" % spec["target"] if spec.get("kind") == "local" else ""),
                "model": spec["model_name"], "status": None}
         recs.append(rec)
         try:
@@ -772,7 +897,7 @@ def emit(repo, pid, out_path):
             rec["status"] = "untranslatable"
             rec["detail"] = "recursion limit"
             continue
-        imports |= set(spec.get("imports", []))
+        imports |= set(spec.get("imports", [])) | set(spec.get("cor_imports", []))
         foralls = " ".join("(%s : %s)" % (c, ct) for c, ct in spec["thm_params"])
         hyps = "".join("%s ->\n  " % h for h in spec.get("hyps", []))
         gname = "gen_%s" % spec["name"]
@@ -827,6 +952,19 @@ def check(repo, pid, scratch, coq_dir, coq_q):
             else:
                 rec["status"] = "unproved"
                 rec["detail"] = out[-600:]
+                if rec.get("kind") == "fit-skeleton":
+                    # not the canonical skeleton: look for a bounded script on which its runs differ from the machine (a test, for the replay)
+                    two = os.path.join(gen_dir, "SrcTie_%s_%s_cmp.v" % (pid, rec["kernel"]))
+                    defn = chunk.split("Theorem ")[0]
+                    with open(two, "w") as f:
+                        f.write(head + defn + "\nEval vm_compute in (first_difference gen_%s 2).\n" % rec["kernel"])
+                    r2 = subprocess.run(["timeout", "300", "coqc"] + coq_q + ["-Q", gen_dir, "QSrcTie", two], capture_output=True, text=True, cwd=coq_dir)
+                    o2 = " ".join((r2.stdout + r2.stderr).split())
+                    if r2.returncode == 0 and "= None" in o2:
+                        rec["status"] = "untranslatable"
+                        rec["detail"] = "the extracted skeleton is not the canonical one but runs like the machine on every bounded script (tie not established): " + " ".join(defn.split())[:400]
+                    elif r2.returncode == 0:
+                        rec["detail"] = "extracted skeleton " + " ".join(defn.split())[:400] + " differs from the machine on script (stop0, scheduler, epochs, batches, stop raised at visible event j) " + o2[-160:]
         from concurrent.futures import ThreadPoolExecutor
         with ThreadPoolExecutor(4) as ex:
             list(ex.map(one_kernel, zip(names, chunks)))
